@@ -859,3 +859,102 @@ def classdef_compile_spec(pat):
     cd2.decompile(OB.OTTableReader(data), font)
     want = {k: v for k, v in CLASSDEF_PATTERNS[pat].items() if v}
     ob('decompile:same-classes', {k: v for k, v in cd2.classDefs.items() if v} == want)
+
+
+# ------------------------------------------------------------------------------------------------ cmap format 14 (Unicode variation sequences)
+def _u24(d, p):
+    return be_uint(d[p:p + 3])
+
+
+def spec_cmap14(d, uv, vs):
+    """('default' | glyph id | None) for the variation sequence <uv, vs> from a format 14 subtable, per the OpenType spec"""
+    n = int(be_uint(d[6:10]))
+    is_default = False
+    gid = -1
+    for i in range(n):
+        o = 10 + 11 * i
+        if int(_u24(d, o)) != vs:
+            continue
+        doff, noff = int(be_uint(d[o + 3:o + 7])), int(be_uint(d[o + 7:o + 11]))
+        conds = []
+        if doff:
+            m = int(be_uint(d[doff:doff + 4]))
+            for j in range(m):
+                s = _u24(d, doff + 4 + 4 * j)
+                cnt = d[doff + 4 + 4 * j + 3]
+                conds.append(conj([le(s, uv), le(uv, s + cnt)]))
+        is_default = disj(conds) if conds else False
+        if noff:
+            m = int(be_uint(d[noff:noff + 4]))
+            for j in reversed(range(m)):
+                p = noff + 4 + 5 * j
+                gid = ite(eq(_u24(d, p), uv), be_uint(d[p + 3:p + 5]), gid)
+    return is_default, gid
+
+
+@kernel('C02', funcs=['ttLib/tables/_c_m_a_p.py:cmap_format_14.compile', 'ttLib/tables/_c_m_a_p.py:cmap_format_14.decompile', 'ttLib/tables/_c_m_a_p.py:cvtFromUVS', 'ttLib/tables/_c_m_a_p.py:cvtToUVS'],
+        bounds='cmap format 14 with one or two variation selectors; the base characters of the default sequences are SYMBOLIC (u, u + d1, u + d1 + d2 with gaps d in 1..3, so '
+               'whether they form one range, two or three is a solver fork), one or two non-default sequences with symbolic base character and symbolic glyph id: read by the '
+               'OpenType rule (default UVS ranges, sorted non-default mappings), every listed sequence is found with its kind / glyph id, the neighbours of the listed base '
+               'characters are not, the length field is the table length; fontTools own decompile returns the same dictionary',
+        shims=['struct', 'array'], quick=[dict(nsel=1, ndef=3, nnon=1)], thorough=[dict(nsel=s, ndef=n, nnon=m) for s in (1, 2) for n in (0, 2, 3) for m in (0, 1, 2) if n + m], max_paths=100000)
+def cmap14_roundtrip(nsel, ndef, nnon):
+    u = V.int('u', 0x20, 0x2F000)
+    gaps = [V.int('gap%d' % i, 1, 3) for i in range(max(ndef - 1, 0))]
+    defs = [u]
+    for g in gaps:
+        defs.append(defs[-1] + g)
+    defs = defs[:ndef]
+    nons = []
+    names = {}
+    for i in range(nnon):
+        c = V.int('nonuv%d' % i, 0x20, 0x2F000)
+        for x in defs + [q for q, _ in nons]:
+            assume(neg(eq(c, x)))
+        gid = V.int('gid%d' % i, 1, 65535)
+        for g0 in names.values():
+            assume(neg(eq(gid, g0)))               # two glyph names never share a glyph id
+        names['n%d' % i] = gid
+        nons.append((c, 'n%d' % i))
+    if nnon == 2:
+        assume(lt(nons[0][0], nons[1][0]))
+    font = _CmapFont(names)
+    st = CM.CmapSubtable.newSubtable(14)
+    st.platformID, st.platEncID, st.language = 0, 5, 0
+    st.cmap = {}
+    sels = [0xFE00, 0xE0100][:nsel]
+    st.uvsDict = {}
+    for vs in sels:
+        st.uvsDict[vs] = [(x, None) for x in defs] + [(c, nm) for c, nm in nons]
+    data = st.compile(font)
+    observe('length', len(tobytes(data)))
+    d = blist(data)
+    ob('spec:length-field', eq(be_uint(d[2:6]), len(d)))
+    ob('spec:selector-count', eq(be_uint(d[6:10]), nsel))
+    conds, miss = [], []
+    for vs in sels:
+        for x in defs:
+            isd, gid = spec_cmap14(d, x, vs)
+            conds.append(conj([isd, eq(gid, -1)]))
+        for c, nm in nons:
+            isd, gid = spec_cmap14(d, c, vs)
+            conds.append(conj([neg(isd) if not isinstance(isd, bool) else (not isd), eq(gid, names[nm])]))
+        # a character next to the listed ones, and not itself listed, has no variation sequence
+        probe = V.int('probe_%x' % vs, 0x1F, 0x2F004)
+        listed = disj([eq(probe, x) for x in defs] + [eq(probe, c) for c, _ in nons])
+        isd, gid = spec_cmap14(d, probe, vs)
+        miss.append(disj([listed, conj([neg(isd) if not isinstance(isd, bool) else (not isd), eq(gid, -1)])]))
+    ob('spec:listed-sequences-found', conj(conds))
+    ob('spec:unlisted-characters-have-none', conj(miss))
+    st2 = CM.CmapSubtable.newSubtable(14)
+    st2.decompile(data, font)
+    ok = sorted(st2.uvsDict) == sorted(sels)
+    if ok:
+        for vs in sels:
+            got = sorted(st2.uvsDict[vs], key=lambda e: (e[1] is not None, ))
+            gd = [e for e in st2.uvsDict[vs] if e[1] is None]
+            gn = [e for e in st2.uvsDict[vs] if e[1] is not None]
+            ok = ok and len(gd) == len(defs) and len(gn) == len(nons)
+            if ok:
+                ok = conj([eq(a[0], b) for a, b in zip(gd, defs)] + [conj([eq(a[0], b[0]), a[1] == b[1]]) for a, b in zip(gn, nons)])
+    ob('decompile:same-dictionary', ok)
